@@ -2,8 +2,8 @@
 # `Pool` trait implementations: program (`states/market/pool.rs`) and SDK (`crates/programs/src/model/pool.rs`)
 
 Hand transcription (u128 amounts, i128 deltas). The shared methods have token-identical bodies on
-both sides (checked by the translator, `Gen.Pools.sharedPoolFnBodyEq`); `checked_cancel_amounts` is
-overridden by the program only — the SDK inherits the trait default of `gmsol_model::Pool`.
+both sides (checked by the translator, `Gen.Pools.sharedPoolFnBodyEq`); whether the SDK also overrides `checked_cancel_amounts` is read from the generated table
+(`Gen.Pools.sdkOverridesCancelAmounts`); without an override it inherits the trait default.
 -/
 namespace Gmx.PoolOps
 
@@ -55,5 +55,10 @@ def cancelDefault (p : RawPool) : Option RawPool :=
   if (ld : Int) ≤ I128MAX ∧ (sd : Int) ≤ I128MAX then
     checkedApplyDelta p (some (-(ld : Int))) (some (-(sd : Int)))
   else none
+
+/-- the SDK's `checked_cancel_amounts`: its own override when it has one (token-identical to the
+program's, checked by the translator), else the trait default -/
+def cancelSdk (overrides : Bool) (p : RawPool) : Option RawPool :=
+  if overrides then cancelProgram p else cancelDefault p
 
 end Gmx.PoolOps
